@@ -128,50 +128,51 @@ func (x *explorer) byzMenu(b int, R int32) []int32 {
 // ---------------------------------------------------------------- configurations
 
 type c01Config struct {
-	Name       string `json:"name"`
-	Byz        int    `json:"byz"` // index of the Byzantine validator, -1 = none
-	R          int32  `json:"max_round"`
-	Crashes    int    `json:"max_crashes"`
-	MaxStates  int    `json:"max_states"`
-	Mode       string `json:"mode"` // "bfs": all interleavings, breadth first | "dev": deviation-bounded DFS
-	Dev        int    `json:"max_deviations"`
-	Reorder    bool   `json:"reorder"`
-	MaxDepth   int    `json:"bfs_depth_bound"`
-	DiffEvery  int    `json:"projection_check_every"`
-	CrashInside bool  `json:"crash_inside_steps"`
-	Strategy    string `json:"byz_strategy"` // "" silent (menu only through deviations) | "own" | "nil" | "echo"
-	Lag         *int   `json:"lagging_node,omitempty"` // default scheduler serves this node last
-	PCFirst     bool   `json:"precommits_first,omitempty"`
-	LagParts    bool   `json:"lagging_node_gets_parts_late,omitempty"`
-	BlockResults bool  `json:"block_results,omitempty"` // deviation: Byzantine peer delivers a fast-sync block result (block, chosen commit votes)
-	Base        string `json:"base_schedule"` // "" | "B3": the search starts from the state the base schedule reaches
-	BudgetS    int    `json:"budget_s"`
+	Name         string `json:"name"`
+	Byz          int    `json:"byz"` // index of the Byzantine validator, -1 = none
+	R            int32  `json:"max_round"`
+	Crashes      int    `json:"max_crashes"`
+	MaxStates    int    `json:"max_states"`
+	Mode         string `json:"mode"` // "bfs": all interleavings, breadth first | "dev": deviation-bounded DFS
+	Dev          int    `json:"max_deviations"`
+	Reorder      bool   `json:"reorder"`
+	MaxDepth     int    `json:"bfs_depth_bound"`
+	DiffEvery    int    `json:"projection_check_every"`
+	CrashInside  bool   `json:"crash_inside_steps"`
+	Strategy     string `json:"byz_strategy"`           // "" silent (menu only through deviations) | "own" | "nil" | "echo"
+	Lag          *int   `json:"lagging_node,omitempty"` // default scheduler serves this node last
+	PCFirst      bool   `json:"precommits_first,omitempty"`
+	LagParts     bool   `json:"lagging_node_gets_parts_late,omitempty"`
+	BlockResults bool   `json:"block_results,omitempty"` // deviation: Byzantine peer delivers a fast-sync block result (block, chosen commit votes)
+	Base         string `json:"base_schedule"`           // "" | "B3": the search starts from the state the base schedule reaches
+	Heights      int    `json:"heights,omitempty"`       // heights each validator runs through before it is terminal (0 = 1)
+	BudgetS      int    `json:"budget_s"`
 }
 
 type c01Result struct {
-	Config       c01Config      `json:"config"`
-	States       int            `json:"states"`
-	Transitions  int            `json:"transitions"`
-	Depth        int            `json:"depth"`
-	Executions   int            `json:"executions"`
-	Complete     bool           `json:"complete"`
-	CapHit       string         `json:"cap_hit,omitempty"`
-	LocalStates  int            `json:"local_states"`
-	EngineSteps  int            `json:"real_engine_steps"`
-	MemoMiss     int            `json:"memo_misses"`
-	Rebuilds     int            `json:"histories_replayed_on_real_engines"`
-	DiffChecks   int            `json:"projection_checks"`
-	DiffMismatch int            `json:"projection_mismatches"`
-	Mismatch     []string       `json:"mismatch_detail,omitempty"`
-	Messages     int            `json:"messages"`
-	Finals       map[string]int `json:"finalization_outcomes"`
-	Violations   []gViolation   `json:"violations,omitempty"`
-	Confirmed    []bool         `json:"violations_confirmed_on_fresh_engines,omitempty"`
-	WallS        float64        `json:"wall_s"`
-	SampleTrace  []string       `json:"sample_trace,omitempty"`
-	RestartStates        int      `json:"local_states_after_restart"`
-	ResignedAfterRestart int      `json:"local_states_signed_after_restart"`
-	RestartKeys          []string `json:"restart_keys,omitempty"`
+	Config               c01Config      `json:"config"`
+	States               int            `json:"states"`
+	Transitions          int            `json:"transitions"`
+	Depth                int            `json:"depth"`
+	Executions           int            `json:"executions"`
+	Complete             bool           `json:"complete"`
+	CapHit               string         `json:"cap_hit,omitempty"`
+	LocalStates          int            `json:"local_states"`
+	EngineSteps          int            `json:"real_engine_steps"`
+	MemoMiss             int            `json:"memo_misses"`
+	Rebuilds             int            `json:"histories_replayed_on_real_engines"`
+	DiffChecks           int            `json:"projection_checks"`
+	DiffMismatch         int            `json:"projection_mismatches"`
+	Mismatch             []string       `json:"mismatch_detail,omitempty"`
+	Messages             int            `json:"messages"`
+	Finals               map[string]int `json:"finalization_outcomes"`
+	Violations           []gViolation   `json:"violations,omitempty"`
+	Confirmed            []bool         `json:"violations_confirmed_on_fresh_engines,omitempty"`
+	WallS                float64        `json:"wall_s"`
+	SampleTrace          []string       `json:"sample_trace,omitempty"`
+	RestartStates        int            `json:"local_states_after_restart"`
+	ResignedAfterRestart int            `json:"local_states_signed_after_restart"`
+	RestartKeys          []string       `json:"restart_keys,omitempty"`
 }
 
 func runC01Config(cfg c01Config) *c01Result {
@@ -185,6 +186,7 @@ func runC01Config(cfg c01Config) *c01Result {
 	}
 	x := newExplorer(env, correct, cfg.R)
 	x.diffEvery = cfg.DiffEvery
+	x.maxHeight = cfg.Heights
 	for _, p := range correct {
 		x.mt.nameBlock(x.honestBlock(p).ID(), fmt.Sprintf("B%d", p))
 		x.mt.namePS(x.honestBlock(p).partSet().ID().Hash, fmt.Sprintf("B%d", p))
@@ -338,12 +340,12 @@ func violationHoldsFull(sig string, fins map[int]string, panics map[int]string, 
 func violationHolds(sig string, fins map[int]string, panics map[int]string, cert map[int]bool) bool {
 	switch {
 	case sig == "disagreement":
-		first := ""
-		for _, f := range fins {
-			if first == "" {
-				first = f
-			} else if f != first {
-				return true
+		// fins[i] lists what validator i finalized, height 1 first, joined by "+"
+		for i, f := range fins {
+			for j, g := range fins {
+				if i < j && finStrConflict(f, g) {
+					return true
+				}
 			}
 		}
 		return false
@@ -356,6 +358,17 @@ func violationHolds(sig string, fins map[int]string, panics map[int]string, cert
 		return false
 	case strings.HasPrefix(sig, "engine-panic:"):
 		return len(panics) > 0
+	}
+	return false
+}
+
+// finStrConflict: both validators finalized some height with different blocks.
+func finStrConflict(a, b string) bool {
+	as, bs := strings.Split(a, "+"), strings.Split(b, "+")
+	for h := 0; h < len(as) && h < len(bs); h++ {
+		if as[h] != bs[h] {
+			return true
+		}
 	}
 	return false
 }
@@ -403,6 +416,12 @@ func c01Configs(thorough bool) []c01Config {
 		}
 		addS("B3-byz3-own-R3-dev1", 3, 3, 0, 1, "own", "B3")
 		addS("B3-byz3-silent-R3-crash1-dev1", 3, 3, 1, 1, "", "B3")
+		// two heights: every validator runs on through height 2 (commit, new height, last
+		// votes, proposal on top of the block it finalized); the Byzantine menu is height 1 only
+		add("H2-nobyz-R1-dev1", -1, 1, 0, "dev", 1, false, 0)
+		cs[len(cs)-1].Heights = 2
+		addS("H2-byz3-own-R1-dev1", 3, 1, 0, 1, "own", "")
+		cs[len(cs)-1].Heights = 2
 		// exact breadth-first search over ALL interleavings (no default scheduler) to a stated depth
 		add("A-byz3-R0-bfs5", 3, 0, 0, "bfs", 0, false, 5)
 		add("B-nobyz-R0-crash1-bfs5", -1, 0, 1, "bfs", 0, false, 5)
@@ -445,6 +464,19 @@ func c01Configs(thorough bool) []c01Config {
 	addS("S-byz1-equivocate-R2-crash1-dev2", 1, 2, 1, 2, "equivocate", "")
 	addS("S-byz3-equivocate-R2-dev2", 3, 2, 0, 2, "equivocate", "")
 	add("A-byz3-R1-dev1-reorder", 3, 1, 0, "dev", 1, true, 0)
+	// two heights (see the quick tier)
+	add("H2-nobyz-R1-dev2", -1, 1, 0, "dev", 2, false, 0)
+	cs[len(cs)-1].Heights = 2
+	add("H2-nobyz-R1-crash1-dev2", -1, 1, 1, "dev", 2, false, 0)
+	cs[len(cs)-1].Heights = 2
+	for _, byz := range []int{0, 1, 2, 3} {
+		for _, st := range []string{"own", "echo", "nil"} {
+			addS(fmt.Sprintf("H2-byz%d-%s-R1-dev2", byz, st), byz, 1, 0, 2, st, "")
+			cs[len(cs)-1].Heights = 2
+		}
+	}
+	add("H3-nobyz-R1-dev1", -1, 1, 0, "dev", 1, false, 0)
+	cs[len(cs)-1].Heights = 3
 	add("B-nobyz-R2-crash2-dev2", -1, 2, 2, "dev", 2, false, 0)
 	add("B-nobyz-R1-crash1-dev3", -1, 1, 1, "dev", 3, false, 0)
 	add("A-byz3-R1-dev3", 3, 1, 0, "dev", 3, false, 0)
@@ -623,7 +655,6 @@ func tail(s string, n int) string {
 	}
 	return s
 }
-
 
 // ---------------------------------------------------------------- base schedule B4: re-lock, crash, amnesia
 //
@@ -1025,4 +1056,3 @@ func runBaseWorker(cfg c01Config) *c01Result {
 	out.WallS = time.Since(t0).Seconds()
 	return out
 }
-
